@@ -1242,6 +1242,9 @@ static void cmd_close (int argc, char **argv)
 {
   int c = argc > 1 ? atoi (argv[1]) : -1; long it = 0;
   if (c < 0 || c >= nclients || !clients[c].open) { ob_puts (&out, "ERR badclient"); return; }
+  /* shutdown() first: activation babysitters are forks of this process and hold copies of every client descriptor
+   * until their child exits, so close() alone would not make the bus see the end of the stream */
+  shutdown (clients[c].fd, SHUT_RDWR);
   close (clients[c].fd); clients[c].open = 0;
   if (argc < 3) it = pump (pump_budget);
   ob_printf (&out, "OK it=%ld", it);
